@@ -2,6 +2,7 @@
   Drv/GridOps.lean — driver handlers for layer A (grids, homogeneous transforms).
 -/
 import Deepali.Proto
+import Deepali.Model.Cube
 namespace Deepali.Drv
 open Deepali Deepali.Proto
 
@@ -133,6 +134,33 @@ def roundDec : Reader String := do
   let x ← rat
   pure (fmtRat (roundDecimals dec x))
 
+private def cubeR (d : Nat) : Reader (Cube d Rat) := do
+  let e ← vec d
+  let c ← vec d
+  let D ← mat d
+  pure ⟨e, c, D⟩
+
+/-- `cube.transform d <extent center direction> axes to_axes vectors other(0|1) [<cube2>]` -/
+def cubeTransform : Reader String := do
+  let d ← nat
+  let c ← cubeR d
+  let a ← axes
+  let b ← axes
+  let v ← bool
+  let hasOther ← bool
+  let other ← if hasOther then (do let o ← cubeR d; pure (some o)) else pure none
+  match c.transform a b other v with
+  | .ok h => pure (fmtH h)
+  | .errValue => pure "err:value"
+
+/-- `cube.of_grid d <grid> ac(-1|0|1)` → extent center direction -/
+def cubeOfGrid : Reader String := do
+  let d ← nat
+  let g ← grid d
+  let ac ← int
+  let c := Cube.ofGrid g (if ac < 0 then none else some (ac = 1))
+  pure s!"{fmtVec c.extent} {fmtVec c.center} {fmtMat c.direction}"
+
 def gridHandlers : List (String × Reader String) :=
   [ ("grid.transform", gridTransform), ("grid.transform_to", gridTransformTo),
     ("grid.apply", gridApply), ("grid.apply_to", gridApplyTo),
@@ -140,6 +168,7 @@ def gridHandlers : List (String × Reader String) :=
     ("grid.origin", gridOrigin), ("grid.from_origin", gridFromOrigin),
     ("coords.arange", coordsArangeH), ("coords.at", coordsAt),
     ("h.apply", hApply), ("h.matmul", hMatmul), ("h.hmm", hHmm), ("h.as_matrix", hAsMatrix),
-    ("h.hom_matrix", hHomMatrix), ("round.decimals", roundDec) ]
+    ("h.hom_matrix", hHomMatrix), ("round.decimals", roundDec),
+    ("cube.transform", cubeTransform), ("cube.of_grid", cubeOfGrid) ]
 
 end Deepali.Drv
